@@ -1,0 +1,22 @@
+//go:build !verif
+
+package fzf
+
+import "github.com/junegunn/fzf/src/tui"
+
+// Conformance-tracing hooks (see verif_on.go). With the `verif` build tag off
+// every call site is guarded by the constant below and compiles to nothing.
+const verifOn = false
+
+func verifTermAct(t *Terminal, a *action, event tui.Event)                  {}
+func verifTermLoop(t *Terminal, event tui.Event, changed bool, reload bool) {}
+func verifTermList(t *Terminal)                                             {}
+func verifTermRender(t *Terminal, what string)                              {}
+func verifTermExit(t *Terminal, code int)                                   {}
+func verifCoord(ev string, fields ...interface{})                           {}
+func verifMatch(ev string, req *MatchRequest, merger *Merger, extra ...interface{}) {
+}
+func verifPreview(ev string, fields ...interface{}) {}
+func verifGate(name string, a int, b int)           {}
+func verifItemIndex(item *Item) int                 { return 0 }
+func verifHead(lines []string, n int) []string      { return nil }
